@@ -21,7 +21,16 @@ func normalizeNodeURI(nodeURI, nodeID, defaultHost, defaultPort string) (string,
 			return "", err
 		}
 
-		if h := uri.Hostname(); h != "::" && h != "" {
+		h := uri.Hostname()
+		if uri.User == nil && len(h) == len(nodeID) {
+			// "enode://<ID>": the node ID alone, no address (the same reading
+			// as ethnode.NodeURI.ID).
+			if h != nodeID {
+				return "", fmt.Errorf("nodeID %q does not match nodeURI: %s", pretty.Abbrev(nodeID), nodeURI)
+			}
+			h = ""
+		}
+		if h != "::" && h != "" {
 			host = h
 		}
 
